@@ -107,6 +107,24 @@ def run_check(pid, tier, seed, replay, t0):
     mod = importlib.import_module('props.' + pid.lower())
     rng = random.Random('%s-%d' % (pid, seed))
     known = [k for k in load_known()['findings'] if k['property'] == pid]
+    if replay:
+        # a replay file that holds a call history is re-executed as such; every other kind (probe,
+        # schedule, kill point, proof obligation) is reproduced by running the whole check again with
+        # the seed recorded in the file name: all of those are deterministic functions of the seed
+        try:
+            with open(replay) as f:
+                payload = json.load(f)
+        except Exception:
+            payload = {}
+        is_history = isinstance(payload, dict) and 'cfg' in payload and 'ops' in payload and pid not in ('C05', 'C07', 'C15', 'C17')
+        is_case = isinstance(payload, dict) and 'case_seed' in payload and pid in ('C05', 'C07', 'C15', 'C17')
+        if not (is_history or is_case):
+            import re
+            m = re.search(r'-seed(\d+)-', os.path.basename(replay))
+            if m:
+                seed = int(m.group(1))
+                rng = random.Random('%s-%d' % (pid, seed))
+            replay = None
     res = mod.run(tier=tier, seed=seed, rng=rng, known=known, replay=replay)
     # res: dict(evaluations, distinct_nontrivial, rule, samples, traces, violations=[...], known=[...], dist={})
 
